@@ -27,6 +27,6 @@ def standins(tier, seed):
     ops = ['gp', 'op', 'ip', 'lc', 'rc', 'sp', 'cp', 'acp', 'add', 'sub', 'rp', 'sw', 'proj', 'neg', 'reverse', 'involute', 'conjugate',
            'normsq', 'hodge', 'unhodge', 'inv', 'div']
     n = 2 if tier == 'quick' else 10
-    cfgs = [dict(p=2, q=0, r=1), dict(p=3), dict(p=1, q=1)] + ([dict(p=2, q=1), dict(p=3, q=0, r=1), dict(name='2DPGA'), dict(p=2, cse=False)] if tier != 'quick' else [])
+    cfgs = [dict(p=2, q=0, r=1), dict(p=3), dict(p=1, q=1), dict(p=3, graded=True), dict(p=2, q=0, r=1, graded=True)] + ([dict(p=2, q=1), dict(p=3, q=0, r=1), dict(name='2DPGA'), dict(p=2, cse=False)] if tier != 'quick' else [])
     return [{'name': f'symbolic#{i}', 'bound': f'{n} seeded operand pairs per configuration x {len(ops)} operators; random symbolic/numeric partition; rational values; subs / positional call / keyword call',
              'job': {'kind': 'symbolic', 'module': 'standins.jobs5', 'ops': ops, 'configs': [dict(c, random=n)], 'seed': seed + i}} for i, c in enumerate(cfgs)]
